@@ -1,4 +1,5 @@
 PROP = {
+    "regen_files": ["GenGuards.v"],
     "num": 15,
     "runs": [
         {"tag": "c15", "bin": "c15"},
